@@ -168,7 +168,7 @@ static int t3_step(T3 *t,const char *what,int pi,const pref *p,const unsigned ch
    MC_ADD(c_samples,n); MC_ADD(c_clipchg,chg); MC_ADD(c_sat16,sat); MC_ADD(c_over24,ov);
    if(nz){ uint64_t h=mc_hash(of,sizeof(float)*n,gf+conceal); if(mc_set_add(S_obs,h)){ MC_INC(c_states); MC_INC(c_dn); if(conceal) MC_INC(c_dnconceal);
       if(mc_set_add(S_cls,mc_mix(mc_hash(api,strlen(api),1+conceal*8+fec*16),mc_mix((p->d[0]>>3)*4+nch,(chg>0)*4+(sat>0)*2+(ov>0)))))
-         if(MC_INC(c_nsmp)<4||(conceal&&MC_INC(c_nsmp2)<2)) mc_sample("%s: " WHERE " -> %d samples x %d ch, final range %08x; %ld samples changed by soft clip, %ld saturated at 16 bits, %ld beyond 2^23 in 24 bits; e.g. float %.7g -> 24-bit %d, 16-bit %d",api,WARGS,rf,nch,gf,chg,sat,ov,(double)of[n/2],o24[n/2],o16[n/2]); } }
+         if(MC_INC(c_nsmp)<3||(conceal&&MC_INC(c_nsmp2)<1)) mc_sample("%s: " WHERE " -> %d samples x %d ch, final range %08x; %ld samples changed by soft clip, %ld saturated at 16 bits, %ld beyond 2^23 in 24 bits; e.g. float %.7g -> 24-bit %d, 16-bit %d",api,WARGS,rf,nch,gf,chg,sat,ov,(double)of[n/2],o24[n/2],o16[n/2]); } }
 done:
    free(o16); free(o24); free(of); free(sc); return ok;
 }
@@ -402,7 +402,7 @@ int main(int argc,char **argv){
    level=(int)mc_arg("--level",MC.tier);
    c_states=mc_counter("states"); c_trans=mc_counter("transitions"); c_eval=mc_counter("evaluations"); c_dn=mc_counter("distinct_nontrivial");
    c_errs=mc_counter("packets_all_return_same_error"); c_nsmp=mc_counter("sample_candidates");
-   S_obs=mc_set_new(22); S_cls=mc_set_new(14);
+   S_obs=mc_set_new(24); S_cls=mc_set_new(14);
    if(!strcmp(mode,"dec")||!strcmp(mode,"msdec")){
       c_samples=mc_counter("samples_compared"); c_clipchg=mc_counter("samples_changed_by_soft_clip"); c_sat16=mc_counter("samples_saturated_16bit"); c_over24=mc_counter("samples_beyond_2p23_in_24bit"); c_nonfinite=mc_counter("samples_nonfinite_skipped"); c_beyond32=mc_counter("samples_float_beyond_int32_in_24bit"); c_conceal=mc_counter("concealment_calls_compared"); c_dnconceal=mc_counter("distinct_nontrivial_concealment_outputs"); c_fork=mc_counter("losses_with_nonzero_softclip_memory"); c_chains=mc_counter("chains"); c_nsmp2=mc_counter("sample_candidates_concealment");
       g_lossmode=(int)mc_arg("--loss",1); g_cfgmask=(int)mc_arg("--cfgs",0x3ff);
